@@ -14,7 +14,7 @@ from vf.taps.montap import montap
 
 LEVEL = "fault_enumeration"
 RULE = (
-    "fault enumeration: valid generated programs (a third of them with runs of statements moved into (nested) .include files) x 30 classes of definite error (invalid character, unterminated string, unknown keyword, "
+    "fault enumeration: valid generated programs (a third of them with runs of statements moved into (nested) .include files) x 31 classes of definite error (invalid character, unterminated string, unknown keyword, "
     "missing brace, missing operand, undefined symbol in a sized operand / in data, undefined macro, too few macro arguments, unsupported "
     "addressing mode, unsupported width, out-of-range branch, unmapped address, missing .include/.incbin/.table/.include_ips file) inserted "
     "at every statement position that is always expanded (thorough) or 6 positions (quick) x 5 entry points (string API, Program.assemble, "
@@ -56,6 +56,7 @@ FAULTS = {
     "macro_defined_only_by_an_earlier_assembly": ("semantic", "ghost_zz9(1)"),
     "branch_from_ram": ("semantic", "tgt_zz9:\n@=0x7e2000\nbra tgt_zz9"),
     "include_ips_without_header": ("semantic", ".include_ips 'bad_zz9.ips', 0"),
+    "run_off_last_mapped_bank": ("semantic", "*=LASTBANK\n.dw 1, 2, 3, 4, 5, 6"),
     "missing_include": ("syntax", ".include 'nofile_zz9.s'"),
     "missing_incbin": ("semantic", ".incbin 'nofile_zz9.bin'"),
     "missing_table": ("semantic", ".table 'nofile_zz9.tbl'"),
@@ -70,7 +71,7 @@ def plan(tier: str, seed: int) -> list[dict]:
 
 
 def fault_text(name: str, rom: str) -> str:
-    return FAULTS[name][1].replace("UNMAPPED", "0x008000" if rom == "high" else "0x700000")
+    return FAULTS[name][1].replace("UNMAPPED", "0x008000" if rom == "high" else "0x700000").replace("LASTBANK", "0xFFFFFA" if rom == "high" else "0x6FFFFA")
 
 
 def positions(prog: list, syntax: bool) -> list[tuple[list, int]]:
